@@ -61,11 +61,11 @@ STATS = {'feas_s': 0.0, 'feas_q': 0}
 
 class State:
     def __init__(s):
-        s.mem = {}; s.zero = []; s.objs = {}; s.bases = []; s.brk = 0x100000; s.pc = []; s.events = []; s.writes = 0; s.fresh = 0; s.defs = []
+        s.mem = {}; s.zero = []; s.objs = {}; s.bases = []; s.brk = 0x100000; s.pc = []; s.events = []; s.writes = 0; s.fresh = 0; s.defs = []; s.visits = {}
     def fork(s):
         n = State.__new__(State)
         n.mem = dict(s.mem); n.zero = list(s.zero); n.objs = dict(s.objs); n.bases = list(s.bases); n.brk = s.brk
-        n.pc = list(s.pc); n.events = list(s.events); n.writes = s.writes; n.fresh = s.fresh; n.defs = list(s.defs)
+        n.pc = list(s.pc); n.events = list(s.events); n.writes = s.writes; n.fresh = s.fresh; n.defs = list(s.defs); n.visits = s.visits
         return n
     # ---- objects
     def alloc(s, size, kind='heap'):
@@ -191,7 +191,8 @@ class State:
         s.fresh += 1; return z3.Real('%s!%d' % (name, s.fresh))
 
 class Limits:
-    def __init__(s, max_steps=4000000, max_paths=4000, feas_ms=10000, max_seconds=900): s.max_steps = max_steps; s.max_paths = max_paths; s.feas_ms = feas_ms; s.max_seconds = max_seconds
+    def __init__(s, max_steps=4000000, max_paths=4000, feas_ms=10000, max_seconds=900, max_visits=None, visit_fn='', visit_block=''):
+        s.max_steps = max_steps; s.max_paths = max_paths; s.feas_ms = feas_ms; s.max_seconds = max_seconds; s.max_visits = max_visits; s.visit_fn = visit_fn; s.visit_block = visit_block
 
 UF = {}
 def uf(name, arity=1):
@@ -215,10 +216,24 @@ class Interp:
     def new_state(s):
         st = State()
         for name in s.mod.globals:
+            if name.startswith('@llvm.'): continue
             s._alloc_global(st, name)
         for name in s.mod.globals:
+            if name.startswith('@llvm.'): continue
             s._init_global(st, name)
         return st
+    def run_global_ctors(s, st, only=''):
+        """executes the module's dynamic initialisers (llvm.global_ctors entries whose name contains `only`), as the C++ runtime does before main"""
+        import re as _re
+        txt = s.mod.globals.get('@llvm.global_ctors', '')
+        done = []
+        for fn in _re.findall(r'void \(\)\* (@[\w.$]+)', txt):
+            if only in fn and fn in s.mod.funcs:
+                ps = s.execute(fn, [], st)
+                live = [p for p in ps if p.end is None]
+                if len(live) != 1: raise Unsupported('global constructor %s: %s' % (fn, [str(p.end) for p in ps][:3]))
+                st = live[0].st; done.append(fn)
+        return st, done
     def _gparse(s, name):
         rest = s.mod.globals[name]
         p = P(tokenize(MD.sub('', rest)), s.mod)
@@ -346,6 +361,11 @@ class Interp:
         while work:
             blk, prev, regs, st, ip = work.pop()
             instrs = f.blocks[blk]
+            if ip == 0 and s.lim.max_visits is not None and s.lim.visit_fn in fname and s.lim.visit_block in blk:
+                # loop bound: a block of the named function entered more than max_visits times on this path ends the path ('cutoff': outside the bound)
+                k = (fname, blk); n = st.visits.get(k, 0) + 1
+                if n > s.lim.max_visits: s.ended.append((st, PathEnd('cutoff', 'block %s of %s entered more than %d times' % (blk, fname[:40], s.lim.max_visits)))); continue
+                st.visits = dict(st.visits); st.visits[k] = n
             if ip == 0:
                 newv = {}
                 try:
